@@ -180,10 +180,11 @@ impl SanitizerConfig {
 
             if list_replacements.is_some() || mode_replacements.is_some() {
                 let mut attrs = attrs.borrow_mut();
-                *attrs = attrs
-                    .clone()
-                    .into_iter()
-                    .map(|mut attr| {
+                let original_attrs = attrs.clone();
+                *attrs = original_attrs
+                    .iter()
+                    .cloned()
+                    .filter_map(|mut attr| {
                         let attr_name = attr.name.local.as_ref();
 
                         let attr_replacement = list_replacements
@@ -192,10 +193,20 @@ impl SanitizerConfig {
                             .copied();
 
                         if let Some(attr_replacement) = attr_replacement {
+                            // An element cannot have two attributes with the same name, the one that
+                            // is already there is kept.
+                            if attr_replacement != attr_name
+                                && original_attrs
+                                    .iter()
+                                    .any(|other| other.name.local.as_ref() == attr_replacement)
+                            {
+                                return None;
+                            }
+
                             attr.name.local = LocalName::from(attr_replacement);
                         }
 
-                        attr
+                        Some(attr)
                     })
                     .collect();
             }
